@@ -271,19 +271,26 @@ def from_bits(bits):
         for i, b in enumerate(bits):
             v |= b << i
         return const(v, w)
-    # contiguous slice of one source?
+    # contiguous slice of one source, possibly zero- or sign-extended?
     b0 = bits[0]
     if isinstance(b0, E) and b0.op == "bit":
         src, k = b0.args
-        ok = True
+        n = 0
         for i, b in enumerate(bits):
-            if not (isinstance(b, E) and b.op == "bit" and b.args[0] == src and b.args[1] == k + i):
-                ok = False
+            if isinstance(b, E) and b.op == "bit" and b.args[1] == k + i and b.args[0] == src:
+                n = i + 1
+            else:
                 break
-        if ok:
-            if k == 0 and src.w == w:
-                return src
-            return E("extract", (src, k), w)
+        if n == w or (n >= 8 and (all(b == 0 for b in bits[n:]) or all(b == bits[n - 1] for b in bits[n:]))):
+            if k == 0 and src.w == n:
+                inner = src
+            else:
+                inner = E("extract", (src, k), n)
+            if n == w:
+                return inner
+            if all(b == 0 for b in bits[n:]):
+                return E("zext", (inner,), w)
+            return E("sext", (inner,), w)
     if w == 1:
         return bits[0] if isinstance(bits[0], E) else const(bits[0], 1)
     return E("bits", tuple(bits), w)
@@ -453,13 +460,46 @@ def _has_bits(*vs):
     return any(v.bits is not None or v.is_const() for v in vs)
 
 
+def _ripple(ab, bb, cin):
+    """Bit-exact addition while every carry stays constant (e.g. x - 1 with bit 0 of x known to be 1); else None."""
+    out = []
+    c = cin
+    for x, y in zip(ab, bb):
+        xs = x in (0, 1)
+        ys = y in (0, 1)
+        if xs and ys:
+            t = x + y + c
+            out.append(t & 1)
+            c = t >> 1
+        else:
+            known, sym = (x, y) if xs else (y, x)
+            if not (known in (0, 1)):
+                return None
+            # sum of one symbolic bit, one constant and a constant carry
+            if known + c == 0:
+                out.append(sym)
+                c = 0
+            elif known + c == 2:
+                out.append(sym)
+                c = 1
+            else:
+                return None
+    return tuple(out)
+
+
 def int_binop(op, a, b):
     """MIR BinOp on two Ints of equal width (shift amount may differ in width). Returns Int."""
     w, signed = a.w, a.signed
     if op in ("Add", "AddUnchecked", "AddWithOverflow"):
-        return Int(w, signed, binop("add", a.e, b.e, w))
+        bits = None
+        if (a.is_const() or b.is_const()) and not (a.is_const() and b.is_const()):
+            bits = _ripple(a.get_bits(), b.get_bits(), 0)
+        return Int(w, signed, binop("add", a.e, b.e, w), bits)
     if op in ("Sub", "SubUnchecked", "SubWithOverflow"):
-        return Int(w, signed, binop("sub", a.e, b.e, w))
+        bits = None
+        if b.is_const() and not a.is_const():
+            bits = _ripple(a.get_bits(), tuple(bit_not(x) for x in b.get_bits()), 1)
+        return Int(w, signed, binop("sub", a.e, b.e, w), bits)
     if op in ("Mul", "MulUnchecked", "MulWithOverflow"):
         return Int(w, signed, binop("mul", a.e, b.e, w))
     if op == "Div":
